@@ -28,6 +28,9 @@ Init == \/ \E v \in IdVariants : sh = [id |-> v, fields |-> <<>>]
         \/ \E a1 \in {"attr", "rel,tt"}, g1 \in {"string", "*int", "[]string"}, g2 \in {"string", "*int", "[]string", "bool"}, first \in BOOLEAN,
               a2 \in {"", "other", "attr,omitempty"} :    \* no api tag, or one that is neither attr nor rel
               sh = [id |-> "ok", fields |-> IF first THEN <<F(g1, "a", a1), F(g2, "a", a2)>> ELSE <<F(g2, "a", a2), F(g1, "a", a1)>>]
+        \* two tagged fields whose json names differ by their case only ("a" and "A"): two fields, in both orders
+        \/ \E a1 \in {"attr", "rel,tt"}, a2 \in {"attr", "rel,tt"}, g1 \in {"string", "*int"}, g2 \in {"string", "[]string", "bool"}, first \in BOOLEAN :
+              sh = [id |-> "ok", fields |-> IF first THEN <<F(g1, "a", a1), F(g2, "A", a2)>> ELSE <<F(g2, "A", a2), F(g1, "a", a1)>>]
         \/ (Pairs /\ \E f \in FieldSpecs, g \in FieldSpecs :
               (f.api # "" /\ g.api # "" /\ f.json \in {"a", ""} /\ g.gotype \in {"string", "[]string", "*int"}) /\
               sh = [id |-> "ok", fields |-> <<f, g>>])
